@@ -98,6 +98,7 @@ class C20(Prop):
             plan["raw"] = {"status": t.choice([200, 201, 404, 299]), "reason": t.choice(["OK", "Fine", "Whatever You Say"]),
                            "headers": t.choice(RAW_HEADER_SETS), "chunks": [t.choice([b"a", b"bb", b"", b"chunk", b"x" * 70000]) for _ in range(t.draw(4))],
                            "as_list": t.draw(2) == 0, "omit_headers_key": t.draw(5) == 0, "class_based": t.draw(4) == 0,
+                           "headers_as_generator": t.draw(4) == 0, "reused_buffer": t.draw(4) == 0,
                            # an ASGI app that uses the zero-copy extension itself (when offered): (seek position, offset, count) per message
                            "zc": t.choice([None, None, [(7, None, None)], [(0, 100, 50), (3, None, 20)], [(40, None, 10), (0, None, None)]]),
                            # PEP 3333: start_response may be called again with exc_info before any body was sent
@@ -191,9 +192,16 @@ class C20(Prop):
                     msg = {"type": "http.response.start", "status": raw["status"]}
                     if not (raw["omit_headers_key"] and not raw["headers"]):
                         msg["headers"] = [(k.lower().encode("latin-1"), v.encode("latin-1")) for k, v in raw["headers"]]
+                        if raw.get("headers_as_generator"):      # "an iterable of [name, value]": a one-shot generator is allowed
+                            msg["headers"] = (h for h in msg["headers"])
                     await send(msg)
+                    buf = bytearray()
                     for c in raw["chunks"]:
-                        await send({"type": "http.response.body", "body": c, "more_body": True})
+                        if raw.get("reused_buffer"):             # the app refills ONE buffer for every chunk it sends
+                            buf[:] = c
+                            await send({"type": "http.response.body", "body": buf, "more_body": True})
+                        else:
+                            await send({"type": "http.response.body", "body": c, "more_body": True})
                     if raw.get("zc") and "http.response.zerocopysend" in scope.get("extensions", {}):
                         import os
                         fd = os.open(self.fs.path("m/mid.bin"), os.O_RDONLY)
